@@ -19,6 +19,7 @@ import PyTough.Proofs.ListingWholeBlock
 import PyTough.Proofs.ListingFileWholeT2
 import PyTough.Proofs.ListingFileWholeAutBlock
 import PyTough.Proofs.ListingFileWholeSetupA
+import PyTough.Proofs.ListingFileWholeSetupT
 import PyTough.Gen.ListingBind
 
 namespace Props.C05
@@ -878,6 +879,71 @@ example : (" EEEEEEEEEEEEEEE\n".toList :: "        ELEMENT TABLE\n".toList :: "\
     (∀ l ∈ [" EEEEEEEEEEEEEEE\n".toList, "        ELEMENT TABLE\n".toList], isBlank l = false) ∧ isBlank "\n".toList = true ∧
     (∀ l ∈ [" ELEMENT INDEX P T X\n".toList], isBlank l = false) ∧ isBlank exDA[0] = false ∧
     (∀ d ∈ exDA[0] :: [exDA[1]], (Proofs.Whole.rowOfLineA [['P'], ['T'], ['X']].length (some 24) d).isSome = true) := by decide
+
+
+/-! ### from set-up to reading (TOUGH2 family): the layout `setup_table_TOUGH2` records describes the same region -/
+
+open Proofs.Whole in
+/-- **The set-up of a TOUGH2-family table records `header_skiplines` and `skiplines` that describe the SAME printed
+    region (regions without repeated headers).**  `setup_table_TOUGH2` is run with the file at the column-header line
+    `hdr` of a region `(hdr :: H) ++ flat segs ++ after`: `hdr` parses into `nkeys` key columns and the column names
+    (`headerColsT`); no line of `H` is a results line and the first data line `d0` is one (enough `.digit` groups:
+    `isResultsLine`); `d0` gives the start of the values and the key positions; every data line has a key; the
+    segments are as the set-up loop walks them (`SegsOkT`, decidable): behind a data line either the next data line or
+    one blank line and then the next data line, none of them a header line, a separator, the title or empty; behind
+    the last data line a separator line, or a blank line followed by a separator / the title / an empty line / the
+    end of the file; `parse_table_line` on the longest line succeeds.  Then the set-up returns, the file is left
+    exactly behind the region (where `read_table_TOUGH2` will leave it), and the stored table has
+    `header_skiplines = len(header)`, `skiplines` = the numbers of lines behind each data line, one zero row per
+    stored name, the columns, key positions and column boundaries inferred — so the region is `TableRegionT` for the
+    stored table as soon as every data line's key names a stored row and reads one value per column.
+    PARTIAL (`hrows`, explicit and decidable): that last condition is assumed, not derived — missing is the proof
+    that with pairwise distinct printed indices `rowdict` keeps every data line's key, and that the inferred
+    boundaries give `ncols` values; regions with repeated (internal) headers are not covered. -/
+theorem setup_table_records_region_TOUGH2_partial (tn : String) (s : Rd) (hdr : Str) (H : List Str) (d0 : Str) (sk0 : List Str)
+    (r : List (Str × List Str)) (after : List Str)
+    (nkeys : Nat) (c : Str) (cs : List Str) (start : Option Int) (keypos : List Int) (numpos : List (Option Int))
+    (hrest : s.pos.rest = (hdr :: H) ++ (flat ((d0, sk0) :: r) ++ after))
+    (hhdr : headerColsT (s.fam == Fam.toughplus) hdr = some (nkeys, c :: cs))
+    (hH : ∀ l ∈ H, isResultsLine (strip l) (expectedT tn (c :: cs)) = false)
+    (hd0 : isResultsLine (strip d0) (expectedT tn (c :: cs)) = true)
+    (hstart : startOfValues d0 (c :: cs) = .ok start)
+    (hkp : keyPositions (sliceO d0 none start) nkeys = .ok (some keypos)) (hne : keypos ≠ [])
+    (hkeys : ∀ sg ∈ (d0, sk0) :: r, (keyFromLine sg.1 keypos).isOk = true)
+    (hok : SegsOkT (c :: cs) s.title ((d0, sk0) :: r) after)
+    (hnp : parseTableLine (runSt start keypos.getLast! keypos { line := d0, longest := d0 } ((d0, sk0) :: r) after).longest
+              start (c :: cs) = .ok numpos)
+    (hrows : ∀ sg ∈ (d0, sk0) :: r, (rowOfLineT
+        ((sortByIndex (runSt start keypos.getLast! keypos { line := d0, longest := d0 } ((d0, sk0) :: r) after).rowdict).map (·.2.2)).toArray
+        keypos (c :: cs).length numpos sg.1).isSome = true) :
+    ∃ t s', (setupTableTOUGH2 tn).run s = .ok ((), s') ∧ s'.tables.lookup tn = some t ∧
+      (hdr :: H).length = t.headerSkip ∧ ((d0, sk0) :: r).map (·.2.length) = t.skips ∧ t.data.size = t.rows.size ∧
+      t.cols = c :: cs ∧ t.keyPos = keypos ∧ t.numpos = numpos ∧
+      TableRegionT t (hdr :: H) ((d0, sk0) :: r) ∧
+      s'.pos = ⟨s.pos.no + (hdr :: H).length + (flat ((d0, sk0) :: r)).length, after⟩ ∧
+      (∀ m, m ≠ tn → s'.tables.lookup m = s.tables.lookup m) ∧
+      s' = { s with pos := s'.pos, tables := s'.tables, tablenames := s.tablenames ++ [tn] } := by
+  obtain ⟨t, s', hrun, hlook, hh, hsk, hdata, hcols, _, hkpos, hnumpos, hrws, hpos, hother, hnames, hs'⟩ :=
+    setupTableTOUGH2_region tn s hdr H d0 sk0 r after nkeys c cs start keypos numpos hrest hhdr hH hd0 hstart hkp hne hkeys hok hnp
+  refine ⟨t, s', hrun, hlook, hh, hsk, hdata, hcols, hkpos, hnumpos, ⟨hh, hsk, hdata, ?_⟩, hpos, hother, ?_⟩
+  · rw [hrws, hkpos, hcols, hnumpos]; exact hrows
+  · rw [hnames] at hs'; exact hs'
+
+-- the hypotheses are satisfiable: the element table of the examples above (header line, blank line, a data line followed
+-- by a blank line, a data line) followed by a separator line of 70 `@`
+private def exSep : Str := ' ' :: (List.replicate 70 '@' ++ ['\n'])
+example : Proofs.Whole.headerColsT false exHdr[0] = some (1, [['P'], ['T'], ['X']]) ∧
+    (∀ l ∈ ["\n".toList], isResultsLine (strip l) (Proofs.Whole.expectedT "element" [['P'], ['T'], ['X']]) = false) ∧
+    isResultsLine (strip exSegs[0].1) (Proofs.Whole.expectedT "element" [['P'], ['T'], ['X']]) = true ∧
+    startOfValues exSegs[0].1 [['P'], ['T'], ['X']] = .ok (some 12) ∧
+    keyPositions (sliceO exSegs[0].1 none (some 12)) 1 = .ok (some [1]) ∧
+    (∀ sg ∈ exSegs, (keyFromLine sg.1 [1]).isOk = true) ∧
+    Proofs.Whole.SegsOkT [['P'], ['T'], ['X']] [] exSegs [exSep] := by decide
+example : parseTableLine (Proofs.Whole.runSt (some 12) ([1] : List Int).getLast! [1] { line := exSegs[0].1, longest := exSegs[0].1 } exSegs [exSep]).longest
+      (some 12) [['P'], ['T'], ['X']] = .ok ([12, 24, 36, 49].map natPos) ∧
+    (∀ sg ∈ exSegs, (Proofs.Whole.rowOfLineT
+      ((sortByIndex (Proofs.Whole.runSt (some 12) ([1] : List Int).getLast! [1] { line := exSegs[0].1, longest := exSegs[0].1 } exSegs [exSep]).rowdict).map (·.2.2)).toArray
+      [1] [['P'], ['T'], ['X']].length ([12, 24, 36, 49].map natPos) sg.1).isSome = true) := by decide
 
 
 end Props.C05
